@@ -218,7 +218,7 @@ class NameGen:
 WEIGHTS = {
     'add_fp': 30, 'add_dir': 14, 'rm_file': 6, 'rm_dir': 4, 'add_link': 8, 'rm_link': 5,
     'add_symlink': 5, 'hide': 3, 'add_eltorito': 3, 'rm_eltorito': 1, 'add_isohybrid': 1,
-    'rm_isohybrid': 1, 'dup_pvd': 0.3, 'restart': 4, 'mass_dirs': 1, 'mass_files': 1, 'add_boot_file': 0, 're_add': 1.5, 'chain_dirs': 0.8, 'mass_eltorito': 0.05,
+    'rm_isohybrid': 1, 'dup_pvd': 0.3, 'restart': 4, 'mass_dirs': 1, 'mass_files': 1, 'add_boot_file': 0, 're_add': 1.5, 'chain_dirs': 0.8, 'mass_eltorito': 0.05, 'shared_hidden_boot': 0.5,
 }
 
 
@@ -926,6 +926,30 @@ class OpGen:
                 if ns in op:
                     cur[ns] = op[ns]
         return out or None
+
+    def g_shared_hidden_boot(self):
+        """Macro-op: one boot image used by two El Torito entries (BIOS and EFI), whose only name is then unlinked: after a
+        restart the image is known through the catalog alone, and both entries must still be the same content."""
+        m = self.m
+        r = self.ra
+        if m.eltorito and len(m.eltorito['entries']) >= 30:
+            return None
+        parent = self._pick_dir('iso', 7 if not (m.rr or m.cfg['level'] == 4) else None)
+        if parent is None:
+            return None
+        nm = self._new_iso_name(parent, False, long_ok=False)
+        if nm is None:
+            return None
+        op = {'op': 'add_fp', 'blob': self.next_blob, 'len': r.choice((2048, 4096, 2049, 10000)), 'route': 'fp', 'iso': M.join(parent, nm)}
+        if m.rr:
+            rn = self._new_rr_name(parent)
+            if rn is None:
+                return None
+            op['rr'] = rn
+        self.next_blob += 1
+        e1 = {'op': 'add_eltorito', 'boot': op['iso'], 'media': 'noemul', 'platform': 0, 'bootable': True, 'load_seg': 0, 'efi': False, 'bit': False}
+        e2 = dict(e1, efi=True, platform=0xef)
+        return [op, e1, e2, {'op': 'rm_link', 'ns': 'iso', 'path': op['iso']}]
 
     def g_mass_eltorito(self):
         """Macro-op: boot files and El Torito entries until the catalog is (nearly) full: an Initial Entry and 31 sections
